@@ -170,3 +170,11 @@ for _pid in ("C07", "C12"):
 p = PROPS["C07"]
 p["streams"] += [S("concrefresh", 8, 120)]
 p["rule"] += " | concrefresh: 1200 refreshes of one entry (expiry, revalidating writer, <name>.tmp + rename; every version has its own length and validator) against 6 goroutines reading it as plain hits through the public Cache.Get; a hit whose validator, Size and bytes belong to different versions is a failure; free-running (no scheduler): part of the search for a failing input, the model's answer is the constant the pinned read shape gives"
+
+# C12 / C13: the hit path's error handling around sendBody is pinned (a failed client write of a hit must not release the key)
+_PIN_SB = T("Pins.sendBodySites", "pin", "cachingHandler: every `… := sendBody(…)` with the statement that follows it: the Found site calls cache.Finish only on a fatal error")
+for _pid in ("C12", "C13"):
+    p = PROPS[_pid]
+    if "RrProofs.Pins" not in p["modules"]:
+        p["modules"] += ["RrProofs.Pins"]
+    p["theorems"] += [_PIN_SB]
